@@ -97,3 +97,10 @@ check(
     "Hypothesis property-based metamorphic testing with schedule injection and an in-flight monitor at a library seam",
     "DESIGN.md §3 C11",
 )
+check(
+    "C13", "exploration",
+    "Differential generated search against the unfiltered run of the same codemod: for every find-and-fix codemod a file with 2-5 sites is built from per-function copies of harvested triggers; which lines are single-line sites is measured (1->1 replaced logical lines that the unfiltered run reports a change entry for); Hypothesis draws proper subsets as --path-exclude / --path-include path:line entries spelled relative, with '*' / '**/' globs or absolute, alone or with a file-level pattern. Forbidden lines must be byte-identical, permitted sites rewritten exactly as in the unfiltered run, no change entry may name a forbidden line, and every rewritten single-line site must have a change entry with its line.",
+    "Trusted: the unfiltered run as reference for what a site is and how it is rewritten; change line numbers accepted in original or new numbering; multi-line constructs exempt (logical lines computed with tokenize).",
+    "Hypothesis property-based testing; differential filtered vs. unfiltered run with measured site lines",
+    "DESIGN.md §3 C13",
+)
